@@ -1,6 +1,7 @@
 package workceptor
 
 import (
+	"os"
 	"github.com/ansible/receptor/internal/verifapi"
 )
 
@@ -237,4 +238,45 @@ func Verif_C14_stdout_size_vs_state_writer() {
 	verifapi.Assert("final-load", final.Load(file) == nil)
 	verifapi.Assert("output-size-recorded", final.StdoutSize == size)
 	verifapi.Assert("other-writer-s-update-not-lost", verifapi.All(final.State == WorkStateSucceeded, final.Detail == "step 2", final.WorkType == "cmd"))
+}
+
+// Verif_C14_state_update_leaves_the_size_alone: the daemon records a new state with "leave the output
+// size as it is" (UpdateBasicStatus(..., -1), as Cancel does) while the output writer stores a chunk and
+// records the new size (the stdout file grows, then saveStdoutSize), every schedule within the
+// pre-emption bound. Whatever the order, the record ends up with the writer's size and the daemon's
+// state: the state update never puts an older size back.
+func Verif_C14_state_update_leaves_the_size_alone() {
+	dir := verifapi.TempDir()
+	wk := verifWorkceptor(dir)
+	bwu := &BaseWorkUnit{}
+	udir := wk.w.dataDir + "/u2"
+	verifapi.Assert("mkdir", ModelMkdir(udir) == nil)
+	bwu.Init(wk.w, "u2", "cmd", FileSystem{}, nil)
+	verifapi.Assert("stdout", os.WriteFile(udir+"/stdout", []byte("abc"), 0o600) == nil)
+	bwu.UpdateBasicStatus(WorkStateRunning, "running", 3)
+	verifapi.ExploreSchedules(2 + verifapi.Tier())
+	done := make(chan bool, 2)
+	go func() {
+		bwu.UpdateBasicStatus(WorkStateCanceled, "Canceled", -1)
+		done <- true
+	}()
+	go func() {
+		f, err := os.OpenFile(udir+"/stdout", os.O_APPEND|os.O_WRONLY, 0o600)
+		if err == nil {
+			_, _ = f.Write([]byte("defgh"))
+			_ = f.Close()
+		}
+		_ = saveStdoutSize(udir, 8)
+		done <- true
+	}()
+	<-done
+	<-done
+	verifapi.ExploreSchedules(0)
+	verifapi.Cover("both-finished")
+	final := &StatusFileData{}
+	verifapi.Assert("final-load", final.Load(udir+"/status") == nil)
+	verifapi.Assert("daemon-state-recorded", verifapi.All(final.State == WorkStateCanceled, final.Detail == "Canceled"))
+	verifapi.Assert("writer-s-size-not-overwritten-by-the-state-update", final.StdoutSize == 8)
+	wk.cancel()
+	verifapi.Quiesce()
 }
